@@ -66,7 +66,7 @@ V(ok, p, why) == IF ok THEN {} ELSE {<<p, why>>}
 
 CtxCode == IF cctx = "cancel" THEN 1 ELSE IF cctx = "deadline" THEN 4 ELSE -1
 
-Init0(k, t, md) ==
+InitH(k, t, md, hs) ==
   /\ kind = k /\ tr = t /\ reqMd = md
   /\ cctx = "live" /\ fault = FALSE
   /\ cSendStarted = 0 /\ cSendOk = {} /\ closeSend = FALSE
@@ -74,8 +74,10 @@ Init0(k, t, md) ==
   /\ hSendStarted = 0 /\ hSendOk = {}
   /\ cRecvd = <<>> /\ cRecvStarted = 0 /\ cHdrStarted = 0
   /\ hdrAcc = <<>> /\ hdrSent = "no" /\ hdrCand = {} /\ hPend = <<>>
-  /\ trlAcc = <<>> /\ hState = "idle" /\ hStatus = NoStatus
+  /\ trlAcc = <<>> /\ hState = hs /\ hStatus = NoStatus
   /\ cTerm = NoRes /\ winddown = FALSE
+
+Init0(k, t, md) == InitH(k, t, md, "idle")
 
 Reset(k, t, md) ==
   /\ kind' = k /\ tr' = t /\ reqMd' = md
@@ -157,7 +159,7 @@ ChkAfterTerminal(res) ==
 ViewsDue(res) ==
   \/ res.k = "nil"
   \/ (res.k = "eof" /\ RespStream)
-  \/ IsHandlerStatus(res)
+  \/ (IsHandlerStatus(res) /\ ~IsCtxStatus(res))
 
 ChkHdrView(h) == V(h \in hdrCand, "C03", "header-view")
 ChkTrlView(t) == V(t = trlAcc, "C03", "trailer-view")
